@@ -70,6 +70,8 @@ type Contract struct {
 	Sets      []*Clause // ghost assignments executed after a call: Clause.At callee, Label = variable
 	MayFail  []string // source-line substrings: an implicit panic there is a path (recovered by a deferred call), not an obligation
 	Panics   string
+	PanicsUnless ast.Expr // with Panics == "may": no panic in call states where this holds
+	PanicsUnlessSrc string
 	Pure     bool
 	Recovers bool // calls recover(): as a deferred call it stops a panic
 	Returns  ast.Expr // pure extern: the result is this expression of the parameters
@@ -421,6 +423,17 @@ func (cs *ContractSet) loadFile(file string, pkgPrefix string) error {
 					}
 				}
 			case "panics":
+				// panics may [unless <expr>]: the callee may panic instead of returning, except in states
+				// (at the call) where <expr> holds
+				if i := strings.Index(rest, " unless "); i >= 0 {
+					e, err := cs.parseExpr(rest[i+len(" unless "):])
+					if err != nil {
+						return fail("panics may unless: %v", err)
+					}
+					cur.PanicsUnless = e
+					cur.PanicsUnlessSrc = rest[i+len(" unless "):]
+					rest = strings.TrimSpace(rest[:i])
+				}
 				cur.Panics = rest
 			case "pure":
 				cur.Pure = true
@@ -717,6 +730,28 @@ func loadContracts(repo string, specDir string) (*ContractSet, error) {
 		}
 		if err := cs.loadFile(f, prefix); err != nil {
 			return nil, err
+		}
+	}
+	// `panics may unless istype(x, *T)` on an interface method M is only accepted if T.M is under a verified
+	// contract that does not itself declare `panics may`.
+	for k, c := range cs.Funcs {
+		if c.PanicsUnlessSrc == "" {
+			continue
+		}
+		ms := regexp.MustCompile(`istype\(\w+,\s*\*([\w./]+)\)`).FindAllStringSubmatch(c.PanicsUnlessSrc, -1)
+		if len(ms) == 0 {
+			return nil, fmt.Errorf("%s:%d: panics may unless: only istype(recv, *T) conditions are supported", c.File, c.Line)
+		}
+		method := k[strings.LastIndex(k, ".")+1:]
+		for _, m := range ms {
+			t := cs.expand(m[1] + ".")
+			t = strings.TrimSuffix(t, ".")
+			i := strings.LastIndex(t, ".")
+			impl := t[:i] + ".(*" + t[i+1:] + ")." + method
+			ic := cs.Funcs[impl]
+			if ic == nil || ic.Kind != "func" || ic.Trusted != "" || ic.Inline || ic.Panics == "may" {
+				return nil, fmt.Errorf("%s:%d: panics may unless %s: %s is not verified without `panics may`", c.File, c.Line, c.PanicsUnlessSrc, impl)
+			}
 		}
 	}
 	// An inlined function is executed as part of its caller: only its loop invariants are used. Clauses that
